@@ -34,12 +34,13 @@ type P2PChain struct {
 	Initial uint64 `json:"initial"`
 	N       int    `json:"n"` // blocks after the genesis block
 	Seed    int64  `json:"seed"`
+	Provider int   `json:"provider,omitempty"` // signature payload provider of the chain (syncdrv.Provider)
 }
 
 // Spec: ~30 % empty blocks with runs, every non-empty block has its own transactions (distinct commitments).
 func (pc P2PChain) Spec() ChainSpec {
 	r := rand.New(rand.NewSource(pc.Seed*7919 + int64(pc.N)*31 + int64(pc.Initial)))
-	cs := ChainSpec{Initial: pc.Initial}
+	cs := ChainSpec{Initial: pc.Initial, Provider: pc.Provider}
 	next, emptyRun := 1, 0
 	for i := 0; i < pc.N; i++ {
 		b := BlockSpec{Dt: []int64{0, 1, 1000}[r.Intn(3)]}
